@@ -73,7 +73,7 @@ def evaluate(name, everything, jobs):
     finally:
         sh("git -C /repo worktree remove --force %s" % wt)
         shutil.rmtree(wt, ignore_errors=True)
-    path = os.path.join(d, "detection.json")
+    path = os.path.join(d, os.environ.get("VERIF_DETECTION_FILE", "detection.json"))   # (e.g. detection-seed2.json with VERIF_SEED=2)
     merged = {}
     if os.path.exists(path):
         try:
